@@ -69,3 +69,33 @@ Definition put_temp_payload (w : option Z) : str := lit "00" ++ hexN 4 (word_of_
 (* parser_30c9 (not an array) / parser_1260: hex_to_temp(payload[2:]) -- the helper insists on 4 characters *)
 Definition parser_temp_tail (p : str) : result tempv :=
   if negb (Nat.eqb (List.length (skipn 2 p)) 4) then Raise ValueError else hex_to_temp_s (skipn 2 p).
+
+(* Command.set_tpi_params(ctl, domain_id, cycle_rate=, min_on_time=, min_off_time=, proportional_band_width=None) -> W|1100.  The constructor
+   checks nothing but the index (its range asserts are commented out); minutes are sent in quarters. *)
+Definition set_tpi_params (domain cycle on off : Z) (pbw : option Z) : option str :=
+  match check_idx domain with
+  | None => None
+  | Some x => Some (x ++ hexN 2 (cycle * 4) ++ hexN 2 (on * 4) ++ hexN 2 (off * 4) ++ lit "00" ++ hexN 4 (word_of_opt pbw) ++ lit "01")
+  end.
+
+Record tpi := mk_tpi { tp_domain : option str; tp_cycle : Z; tp_on4 : Z; tp_off4 : Z; tp_u0 : str; tp_pbw : tempv; tp_u1 : str }.
+(* `int(x, 16) / 4 in range(lo, hi)`: a whole number of units, within the range *)
+Definition in_quarters (v lo hi : Z) : bool := (v mod 4 =? 0) && (lo * 4 <=? v) && (v <? hi * 4).
+Definition pbw_ok (t : tempv) : bool :=
+  match t with
+  | TNone => true
+  | TFalse => false
+  | TNum f => fleb (fdiv (f_of_Z 3) (f_of_Z 2)) f && fleb f (f_of_Z 3)
+  end.
+(* parser_1100, the 8-byte form from a controller / relay (not the 1-byte RQ, the 5-byte form or the Jasper blob) *)
+Definition parser_1100 (p : str) : result tpi :=
+  if negb (Nat.eqb (List.length p) 16) then Raise AssertionError
+  else match int16 (slice 2 4 p), int16 (slice 4 6 p), int16 (slice 6 8 p) with
+       | Some c, Some a, Some b =>
+           if negb (in_quarters c 1 13) || negb (in_quarters a 1 31) || negb (in_quarters b 0 16) then Raise AssertionError
+           else do w <- hex_to_temp_s (slice 10 14 p);
+                if pbw_ok w
+                then Ok (mk_tpi (if str_eqb (slice 0 1 p) (lit "F") then Some (slice 0 2 p) else None) (c / 4) a b (slice 8 10 p) w (slice 14 16 p))
+                else Raise AssertionError
+       | _, _, _ => Raise ValueError
+       end.
